@@ -71,6 +71,8 @@ def compatible(op, impl, model, pkeys):
     for k in ("p", "lock", "vig", "close"):
         if fi.get(k) != fm.get(k):
             return False
+    if fi.get("store") in ("corrupt", "lostack"):
+        return False
     if fm.get("store") != "any" and fi.get("store") != fm.get("store"):
         return False
     if ci == cm:
@@ -102,6 +104,8 @@ def impl_violation(op, line):
         return "%s never returned (it keeps the system lock, so the server can no longer shut down)" % rpc
     if kv.get("store") == "corrupt":
         return "%s damaged a stored treasure the request did not address" % rpc
+    if kv.get("store") == "lostack":
+        return "%s acknowledged a write (NEW / UPDATED / CREATED / PATCHED / incremented) of a key that is not there after close + reload" % rpc
     if kv.get("lock") == "1":
         return "%s left the safeops system lock held" % rpc
     if kv.get("vig") == "1":
@@ -142,6 +146,8 @@ def engine_class(line):
         return cls
     if kv.get("store") == "corrupt":
         return "corrupt"
+    if kv.get("store") == "lostack":
+        return "lostack"
     if cls.startswith("err ") and kv.get("store") == "changed":
         return "errchanged"
     if kv.get("lock") == "1":
